@@ -108,6 +108,11 @@ def sNull : Str := [110, 117, 108, 108]
 def sTrue : Str := [116, 114, 117, 101]
 def sFalse : Str := [102, 97, 108, 115, 101]
 
+/-- `if i != last { push(item_sep ++ newline) }` -/
+def sepAfter {α : Type} (f : Fmt) : List α → Str
+  | [] => []
+  | _ :: _ => f.itemSep ++ f.newline
+
 mutual
 /-- `do_manifest_json` at `depth = d`.  (`if !indent.is_empty() { push
     indent.repeat(d+1) }` equals pushing `rep (d+1) indent` unconditionally.) -/
@@ -122,24 +127,24 @@ def manifest (f : Fmt) (d : Nat) : JVal → Str
     | some e => e
     | none => 91 :: (f.newline ++ (f.newline ++ (rep d f.indent ++ [93])))
   | .arr (x :: xs) =>
-    91 :: (f.newline ++ (manifestItems f d x xs ++ (f.newline ++ (rep d f.indent ++ [93]))))
+    91 :: (f.newline ++ (manifestItems f d (x :: xs) ++ (f.newline ++ (rep d f.indent ++ [93]))))
   | .obj [] =>
     match f.emptyObject with
     | some e => e
     | none => 123 :: (f.newline ++ (f.newline ++ (rep d f.indent ++ [125])))
-  | .obj ((k, x) :: xs) =>
-    123 :: (f.newline ++ (manifestFields f d k x xs ++ (f.newline ++ (rep d f.indent ++ [125]))))
-/-- items of a non-empty array, separated by `item_sep ++ newline` -/
-def manifestItems (f : Fmt) (d : Nat) : JVal → List JVal → Str
-  | x, [] => rep (d + 1) f.indent ++ manifest f (d + 1) x
-  | x, y :: ys =>
-    rep (d + 1) f.indent ++ (manifest f (d + 1) x ++ (f.itemSep ++ (f.newline ++ manifestItems f d y ys)))
-/-- fields of a non-empty object -/
-def manifestFields (f : Fmt) (d : Nat) : Str → JVal → List (Str × JVal) → Str
-  | k, x, [] => rep (d + 1) f.indent ++ (escape k ++ (f.keyValSep ++ manifest f (d + 1) x))
-  | k, x, (k', y) :: ys =>
+  | .obj (kx :: xs) =>
+    123 :: (f.newline ++ (manifestFields f d (kx :: xs) ++ (f.newline ++ (rep d f.indent ++ [125]))))
+/-- items of an array, separated by `item_sep ++ newline` -/
+def manifestItems (f : Fmt) (d : Nat) : List JVal → Str
+  | [] => []
+  | x :: xs =>
+    rep (d + 1) f.indent ++ (manifest f (d + 1) x ++ (sepAfter f xs ++ manifestItems f d xs))
+/-- fields of an object -/
+def manifestFields (f : Fmt) (d : Nat) : List (Str × JVal) → Str
+  | [] => []
+  | (k, x) :: xs =>
     rep (d + 1) f.indent ++ (escape k ++ (f.keyValSep ++ (manifest f (d + 1) x ++
-      (f.itemSep ++ (f.newline ++ manifestFields f d k' y ys)))))
+      (sepAfter f xs ++ manifestFields f d xs))))
 end
 
 /-- `std.toString` / string coercion (`CoerceToString`): strings as they are,
@@ -498,6 +503,10 @@ def sNone : Str := [78, 111, 110, 101]
 def sPyTrue : Str := [84, 114, 117, 101]
 def sPyFalse : Str := [70, 97, 108, 115, 101]
 
+def commaAfter {α : Type} : List α → Str
+  | [] => []
+  | _ :: _ => [44, 32]
+
 mutual
 def manifestPython : JVal → Str
   | .null => sNone
@@ -506,15 +515,15 @@ def manifestPython : JVal → Str
   | .num t => t
   | .str s => escape s
   | .arr [] => [91, 93]
-  | .arr (x :: xs) => 91 :: (pythonItems x xs ++ [93])
+  | .arr (x :: xs) => 91 :: (pythonItems (x :: xs) ++ [93])
   | .obj [] => [123, 125]
-  | .obj ((k, x) :: xs) => 123 :: (pythonFields k x xs ++ [125])
-def pythonItems : JVal → List JVal → Str
-  | x, [] => manifestPython x
-  | x, y :: ys => manifestPython x ++ (44 :: 32 :: pythonItems y ys)
-def pythonFields : Str → JVal → List (Str × JVal) → Str
-  | k, x, [] => escape k ++ (58 :: 32 :: manifestPython x)
-  | k, x, (k', y) :: ys => escape k ++ (58 :: 32 :: (manifestPython x ++ (44 :: 32 :: pythonFields k' y ys)))
+  | .obj (kx :: xs) => 123 :: (pythonFields (kx :: xs) ++ [125])
+def pythonItems : List JVal → Str
+  | [] => []
+  | x :: xs => manifestPython x ++ (commaAfter xs ++ pythonItems xs)
+def pythonFields : List (Str × JVal) → Str
+  | [] => []
+  | (k, x) :: xs => escape k ++ (58 :: 32 :: (manifestPython x ++ (commaAfter xs ++ pythonFields xs)))
 end
 
 /-! ## key quoting: `is_safe_yaml_plain`, `is_safe_toml_plain` -/
@@ -539,23 +548,44 @@ def yamlSpecial : List Str :=
 
 def isHexLetter (c : Nat) : Bool := (97 ≤ c && c ≤ 102) || (65 ≤ c && c ≤ 70)
 
+/-- "Check empty string and special sequences" -/
+def yEmptyOrDashes (s : Str) : Bool := s.isEmpty || s == [45] || s == [45, 45, 45]
+/-- "Check for unsafe characters" -/
+def yPlainChar (c : Nat) : Bool := isAlnum c || c == 47 || c == 95 || c == 45 || c == 46
+def yUnsafeChar (s : Str) : Bool := s.any (fun c => !yPlainChar c)
+/-- "Check for reserved alphabetic values" -/
+def yReserved (s : Str) : Bool := yamlSpecial.any (fun sp => eqIgnoreAsciiCase s sp)
+/-- "Check for dates" -/
+def yDate (s : Str) : Bool := s.all (fun c => isDigit c || c == 45) && countC (· == 45) s == 2
+/-- "Check for integers" -/
+def yInt (s : Str) : Bool := s.all (fun c => isDigit c || c == 95 || c == 45) && countC (· == 45) s ≤ 1
+/-- "Check for base-2 integers" -/
+def yBin (s : Str) : Bool :=
+  (startsWith [48, 98] s || startsWith [45, 48, 98] s)
+    && s.all (fun c => isDigit c || c == 98 || c == 66 || c == 95 || c == 45)
+    && countC (· == 45) s ≤ 1
+/-- "Check for base-16 integers" -/
+def yHex (s : Str) : Bool :=
+  (startsWith [48, 120] s || startsWith [45, 48, 120] s)
+    && s.all (fun c => isDigit c || isHexLetter c || c == 120 || c == 88 || c == 95 || c == 45)
+    && countC (· == 45) s ≤ 1
+/-- "Check for floats" -/
+def yFloat (s : Str) : Bool :=
+  s.all (fun c => isDigit c || c == 101 || c == 69 || c == 95 || c == 45 || c == 46)
+    && countC (· == 46) s == 1
+    && countC (· == 45) s ≤ 2
+    && countC (fun c => c == 101 || c == 69) s ≤ 1
+
 /-- `is_safe_yaml_plain` -/
 def isSafeYamlPlain (s : Str) : Bool :=
-  if s.isEmpty || s == [45] || s == [45, 45, 45] then false
-  else if s.any (fun c => !(isAlnum c || c == 47 || c == 95 || c == 45 || c == 46)) then false
-  else if yamlSpecial.any (fun sp => eqIgnoreAsciiCase s sp) then false
-  else if s.all (fun c => isDigit c || c == 45) && countC (· == 45) s == 2 then false
-  else if s.all (fun c => isDigit c || c == 95 || c == 45) && countC (· == 45) s ≤ 1 then false
-  else if (startsWith [48, 98] s || startsWith [45, 48, 98] s)
-      && s.all (fun c => isDigit c || c == 98 || c == 66 || c == 95 || c == 45)
-      && countC (· == 45) s ≤ 1 then false
-  else if (startsWith [48, 120] s || startsWith [45, 48, 120] s)
-      && s.all (fun c => isDigit c || isHexLetter c || c == 120 || c == 88 || c == 95 || c == 45)
-      && countC (· == 45) s ≤ 1 then false
-  else if s.all (fun c => isDigit c || c == 101 || c == 69 || c == 95 || c == 45 || c == 46)
-      && countC (· == 46) s == 1
-      && countC (· == 45) s ≤ 2
-      && countC (fun c => c == 101 || c == 69) s ≤ 1 then false
+  if yEmptyOrDashes s then false
+  else if yUnsafeChar s then false
+  else if yReserved s then false
+  else if yDate s then false
+  else if yInt s then false
+  else if yBin s then false
+  else if yHex s then false
+  else if yFloat s then false
   else true
 
 /-- `is_safe_toml_plain` (byte-wise in Rust; a non-ASCII code point has only
@@ -591,6 +621,10 @@ def yamlString (s : Str) (depth : Nat) (nested : Bool) : Str :=
     124 :: ((splitNl [] body).map (fun line => 10 :: (rep sub yamlIndent ++ line))).flatten
   | none => escape s
 
+def nlAfter {α : Type} : List α → Str
+  | [] => []
+  | _ :: _ => [10]
+
 mutual
 /-- `do_manifest_yaml_doc(indent_array_in_object, quote_keys, depth,
     parent_is_array, parent_is_object)` -/
@@ -603,22 +637,23 @@ def manifestYaml (iaio qk : Bool) (depth : Nat) (pArr pObj : Bool) : JVal → St
   | .arr [] => (if pArr || pObj then [32] else []) ++ [91, 93]
   | .arr (x :: xs) =>
     (if pArr || pObj then [10] else []) ++
-      yamlItems iaio qk (if pObj && !iaio then depth - 1 else depth) x xs
+      yamlItems iaio qk (if pObj && !iaio then depth - 1 else depth) (x :: xs)
   | .obj [] => (if pArr || pObj then [32] else []) ++ [123, 125]
-  | .obj ((k, x) :: xs) =>
-    (if pArr then [32] else if pObj then [10] else []) ++
-      ((if pArr then [] else rep depth yamlIndent) ++ yamlFields iaio qk depth k x xs)
-def yamlItems (iaio qk : Bool) (depth : Nat) : JVal → List JVal → Str
-  | x, [] => rep depth yamlIndent ++ (45 :: manifestYaml iaio qk (depth + 1) true false x)
-  | x, y :: ys =>
+  | .obj (kx :: xs) =>
+    (if pArr then [32] else if pObj then [10] else []) ++ yamlFields iaio qk depth pArr (kx :: xs)
+def yamlItems (iaio qk : Bool) (depth : Nat) : List JVal → Str
+  | [] => []
+  | x :: xs =>
     rep depth yamlIndent ++ (45 :: (manifestYaml iaio qk (depth + 1) true false x ++
-      (10 :: yamlItems iaio qk depth y ys)))
-/-- fields; the indent of the first field is emitted by the caller -/
-def yamlFields (iaio qk : Bool) (depth : Nat) : Str → JVal → List (Str × JVal) → Str
-  | k, x, [] => yamlKey qk k ++ (58 :: manifestYaml iaio qk (depth + 1) false true x)
-  | k, x, (k', y) :: ys =>
-    yamlKey qk k ++ (58 :: (manifestYaml iaio qk (depth + 1) false true x ++
-      (10 :: (rep depth yamlIndent ++ yamlFields iaio qk depth k' y ys))))
+      (nlAfter xs ++ yamlItems iaio qk depth xs)))
+/-- `skipIndent`: the first field of an object that is an array item stays on
+    the line of the `- ` -/
+def yamlFields (iaio qk : Bool) (depth : Nat) (skipIndent : Bool) : List (Str × JVal) → Str
+  | [] => []
+  | (k, x) :: xs =>
+    (if skipIndent then [] else rep depth yamlIndent) ++ (yamlKey qk k ++
+      (58 :: (manifestYaml iaio qk (depth + 1) false true x ++
+        (nlAfter xs ++ yamlFields iaio qk depth false xs))))
 end
 
 /-- `std.manifestYamlDoc(v, indent_array_in_object, quote_keys)` -/
@@ -676,50 +711,88 @@ def decodeHexChars (cs : List Char) : Option Str := do
     `z` | `t` | `f` | `n<16 hex bits>:<hex token>;` | `s<hex>;` |
     `[` v* `]` | `{` (`v`|`h`) `<hex key>;` v ... `}`  (`h` = hidden field).
     Objects are normalised with `visibleSorted` as they are read. -/
-def readVal : Nat → List Char → Option (JVal × List Char)
+inductive Tok where
+  | null | tt | ff | num (t : Str) | str (s : Str) | lb | rb | lc | rc
+  | key (hidden : Bool) (k : Str)
+
+/-- tokenise the wire syntax (`inObj` tracks whether a key is expected) -/
+def wireToks : Nat → List Char → Option (List Tok)
   | 0, _ => none
-  | fuel + 1, cs =>
-    match cs with
-    | 'z' :: r => some (.null, r)
-    | 't' :: r => some (.bool true, r)
-    | 'f' :: r => some (.bool false, r)
-    | 'n' :: r => do
+  | _, [] => some []
+  | fuel + 1, c :: r =>
+    if c = 'z' then (wireToks fuel r).map (Tok.null :: ·)
+    else if c = 't' then (wireToks fuel r).map (Tok.tt :: ·)
+    else if c = 'f' then (wireToks fuel r).map (Tok.ff :: ·)
+    else if c = '[' then (wireToks fuel r).map (Tok.lb :: ·)
+    else if c = ']' then (wireToks fuel r).map (Tok.rb :: ·)
+    else if c = '{' then (wireToks fuel r).map (Tok.lc :: ·)
+    else if c = '}' then (wireToks fuel r).map (Tok.rc :: ·)
+    else if c = 'n' then do
       let (_, r) ← takeUntil ':' [] r
       let (tok, r) ← takeUntil ';' [] r
-      pure (.num (← decodeHexChars tok), r)
-    | 's' :: r => do
+      let t ← decodeHexChars tok
+      (wireToks fuel r).map (Tok.num t :: ·)
+    else if c = 's' then do
       let (h, r) ← takeUntil ';' [] r
-      pure (.str (← decodeHexChars h), r)
-    | '[' :: r => readItems fuel [] r
-    | '{' :: r => readFields fuel [] r
-    | _ => none
-where
-  readItems : Nat → List JVal → List Char → Option (JVal × List Char)
-    | 0, _, _ => none
-    | fuel + 1, acc, cs =>
-      match cs with
-      | ']' :: r => some (.arr acc.reverse, r)
-      | _ => do
-        let (v, r) ← readVal fuel cs
-        readItems fuel (v :: acc) r
-  readFields : Nat → List (Str × Bool × JVal) → List Char → Option (JVal × List Char)
-    | 0, _, _ => none
-    | fuel + 1, acc, cs =>
-      match cs with
-      | '}' :: r => some (.obj (visibleSorted acc.reverse), r)
-      | vis :: r => do
-        let (h, r) ← takeUntil ';' [] r
-        let k ← decodeHexChars h
-        let (v, r) ← readVal fuel r
-        if vis = 'v' then readFields fuel ((k, false, v) :: acc) r
-        else if vis = 'h' then readFields fuel ((k, true, v) :: acc) r
-        else none
-      | [] => none
+      let t ← decodeHexChars h
+      (wireToks fuel r).map (Tok.str t :: ·)
+    else if c = 'v' ∨ c = 'h' then do
+      let (h, r) ← takeUntil ';' [] r
+      let t ← decodeHexChars h
+      (wireToks fuel r).map (Tok.key (c = 'h') t :: ·)
+    else none
 
-def decodeVal (s : String) : Option JVal :=
-  match readVal (s.length + 1) s.toList with
-  | some (v, []) => some v
-  | _ => none
+inductive WFrame where
+  | arr (acc : List JVal)
+  | obj (acc : List (Str × Bool × JVal)) (key : Option (Bool × Str))
+
+/-- shift/reduce over the token list -/
+def wireBuild : List Tok → List WFrame → Option JVal → Option JVal
+  | [], [], some v => some v
+  | [], _, _ => none
+  | t :: ts, st, done =>
+    let put (v : JVal) : Option JVal :=
+      match st with
+      | [] => match done with | none => wireBuild ts [] (some v) | some _ => none
+      | .arr acc :: st' => wireBuild ts (.arr (v :: acc) :: st') done
+      | .obj acc (some (h, k)) :: st' => wireBuild ts (.obj ((k, h, v) :: acc) none :: st') done
+      | .obj _ none :: _ => none
+    match t with
+    | .null => put .null
+    | .tt => put (.bool true)
+    | .ff => put (.bool false)
+    | .num x => put (.num x)
+    | .str x => put (.str x)
+    | .lb => wireBuild ts (.arr [] :: st) done
+    | .lc => wireBuild ts (.obj [] none :: st) done
+    | .key h k =>
+      match st with
+      | .obj acc none :: st' => wireBuild ts (.obj acc (some (h, k)) :: st') done
+      | _ => none
+    | .rb =>
+      match st with
+      | .arr acc :: st' =>
+        let v := JVal.arr acc.reverse
+        match st' with
+        | [] => match done with | none => wireBuild ts [] (some v) | some _ => none
+        | .arr acc' :: st'' => wireBuild ts (.arr (v :: acc') :: st'') done
+        | .obj acc' (some (h, k)) :: st'' => wireBuild ts (.obj ((k, h, v) :: acc') none :: st'') done
+        | .obj _ none :: _ => none
+      | _ => none
+    | .rc =>
+      match st with
+      | .obj acc none :: st' =>
+        let v := JVal.obj (visibleSorted acc.reverse)
+        match st' with
+        | [] => match done with | none => wireBuild ts [] (some v) | some _ => none
+        | .arr acc' :: st'' => wireBuild ts (.arr (v :: acc') :: st'') done
+        | .obj acc' (some (h, k)) :: st'' => wireBuild ts (.obj ((k, h, v) :: acc') none :: st'') done
+        | .obj _ none :: _ => none
+      | _ => none
+
+def decodeVal (s : String) : Option JVal := do
+  let ts ← wireToks (s.length + 1) s.toList
+  wireBuild ts [] none
 
 def hexOfStr (s : Str) : String := hexEncode (s.flatMap utf8EncodeChar)
 
@@ -762,6 +835,9 @@ def manifestBy (fmt : String) (v : JVal) : Option Str :=
   | ["D"] => some (manifest Fmt.defaultManifest 0 v)
   | ["T"] => some (manifest Fmt.toStringFmt 0 v)
   | ["S"] => some (toStringVal v)
+  | ["C"] => some (toStringVal v)
+  | ["X1", i] => do pure (manifest (Fmt.ex (← decodeHexStr i) [10] [58, 32]) 0 v)
+  | ["Y0"] => some (manifestYamlDoc false true v)
   | ["M"] => some (manifest Fmt.minified 0 v)
   | ["J"] => some (manifest Fmt.stdManifestJson 0 v)
   | ["X", i, n, k] => do
